@@ -12,7 +12,8 @@
 //      proved in unit `cache`), every other list untouched; afterwards the entity carries a DespawnTracker;
 //   R3 an EXISTING DespawnTracker is never replaced - stated as the PRECONDITION of the stand-in `insert::<DespawnTracker>`:
 //      replacing it would run DespawnTracker::drop, i.e. report a despawn that did not happen (premature despawn reactions, C07/C08);
-//   R4 a new tracker reports to THIS cache's despawn channel, for THIS entity.
+//   R4 a new tracker reports to THIS cache's despawn channel, for THIS entity;
+//   R5 dropping a tracker sends its parent exactly once through its notifier (DespawnTracker::drop).
 use vstd::prelude::*;
 verus! {
 //@include prelude.inc
@@ -20,7 +21,22 @@ verus! {
 pub struct In<T>(pub T);
 pub type Mut<'a, T> = &'a mut T;
 #[verifier::external_body] #[verifier::reject_recursive_types(T)] pub struct Sender<T> { _k: core::marker::PhantomData<T> }
+pub struct SendError;
+impl<T> Sender<T> {
+    /// what has been sent through THIS handle (ghost log)
+    pub uninterp spec fn sent(&self) -> Seq<T>;
+    // crossbeam Sender::send on an unbounded channel: the message is enqueued.  `&mut self` instead of `&self` (interior mutability
+    // has no contract language in Verus; the call `self.notifier.send(..)` type-checks against it unchanged).
+    #[verifier::external_body]
+    pub fn send(&mut self, t: T) -> (r: Result<(), SendError>) ensures final(self).sent() == old(self).sent().push(t) { unimplemented!() }
+}
 //@struct src/react/reaction_triggers_impl.rs DespawnTracker
+// R5 (the report itself): dropping a tracker - Bevy drops it with the entity - sends THIS tracker's parent, once, through THIS
+// tracker's notifier.  `Drop::drop` is placed in an inherent impl (Verus does not verify Drop impls as such); its text is the repo's.
+impl DespawnTracker {
+//@fn src/react/reaction_triggers_impl.rs impl Drop for DespawnTracker drop
+//@| ensures final(self).notifier.sent() == old(self).notifier.sent().push(old(self).parent), final(self).parent == old(self).parent,
+}
 #[verifier::external_body] pub struct ReactCache { _p: u8 }
 impl ReactCache {
     pub uninterp spec fn despawn_tab(&self) -> Map<Entity, Seq<ReactorHandle>>;
